@@ -204,4 +204,53 @@ var propSpecs = map[string]PropSpec{
 		Symbolic:   []string{"cursor", "writer status and length", "presence flags", "dynamic id bytes"},
 		Enumerated: []string{"number of stale errors/handlers", "request kind"},
 	},
+	"C12": {
+		ID: "C12",
+		Harnesses: []HarnessSpec{
+			{Pkg: "rux", Name: "verifHarness_C12_groups", NCfgQ: 864, SampleQ: 80, SampleT: 864, Covers: []string{"C12 program run"}},
+		},
+		Assumptions: []string{
+			"group prefixes are symbolic lower-case letters (clean, non-root), spelled '/x', 'x' or '/x/'; route paths concrete",
+			"handler identity is observed by calling the handler (each records its id); expected prefix/middleware lists are computed from the program text",
+			"Resource's group part is exercised by the C16 harness",
+		},
+		Bounds:     map[string]string{"P": "program family of 864 shapes: route before/inside/between/after groups, nested group, sibling group with different middleware, Use between two routes of a group, variadic middleware slice with spare capacity, Controller; 80 sampled per quick run", "prefix": "outer prefix 1..2 symbolic letters, inner 1", "probe": "each registered full path, plus one symbolic path of length 1..8"},
+		Symbolic:   []string{"group prefix bytes", "probe path bytes"},
+		Enumerated: []string{"program shapes", "prefix spelling"},
+	},
+	"C15": {
+		ID: "C15",
+		Harnesses: []HarnessSpec{
+			{Pkg: "rux", Name: "verifHarness_C15_buildURL", Quick: map[string]int{"L": 3}, Thorough: map[string]int{"L": 4}, NCfgQ: 19 * 3 * 4, SampleQ: 90,
+				Covers: []string{"C15 url built"}},
+			{Pkg: "rux", Name: "verifHarness_C15_getRoute", Covers: []string{"C15 getRoute"}},
+		},
+		Assumptions: []string{
+			"values are assumed to satisfy their variable's regex (Go regexp membership formula) - the property's precondition",
+			"'when requested' is modelled as QuickMatch(GET, u.Path); the trip through url.URL.String and the HTTP server is net/url's contract",
+			"bound: the last byte of a value that ends the path is not '/' and not the tail of a white-space rune (request-path normalisation would remove it; outside the claim, see DESIGN.md)",
+			"Go's map iteration order inside Build is explored through 4 rotations/reversals of the engine's deterministic order; natively the replay repeats 40 times",
+			"extra (non-variable) arguments are concrete; url.Values.Encode is native",
+		},
+		Bounds:     map[string]string{"L": "value length 1..3 quick / 1..4 thorough per variable, all byte values the regex admits", "T": "19 named routes (static, 1-3 variables, default/global/custom regexes) x 3 argument styles x 3 naming APIs x 4 map orders"},
+		Symbolic:   []string{"every byte of every variable value"},
+		Enumerated: []string{"route", "argument style", "naming API", "map order", "value lengths"},
+	},
+	"C16": {
+		ID: "C16",
+		Harnesses: []HarnessSpec{
+			{Pkg: "rux", Name: "verifHarness_C16_resource", Quick: map[string]int{"L": 6}, Thorough: map[string]int{"L": 8}, NCfgQ: 128 * 2 * 3 * 7, SampleQ: 70, SampleT: 1500,
+				Covers: []string{"C16 action dispatched", "C16 no action"}},
+			{Pkg: "rux", Name: "verifHarness_C16_invalid", NCfgQ: 2, Covers: []string{"C16 invalid controller"}},
+		},
+		Assumptions: []string{
+			"the 128 method sets are 128 generated struct types (tools/gen_c16.py), with and without Uses()",
+			"reflect is answered from go/types method sets by the engine's intrinsics (ValueOf, Type, Kind, Elem, Name, MethodByName, IsValid, Interface) - the engine's weakest intrinsic; counterexamples are replayed natively with the real reflect",
+			"iteration order of the RESTFulActions map: 7 rotations of the literal order",
+			"probe = resource path + symbolic tail; oracle = the seven-row table restricted to the implemented actions, evaluated with the C01 winner rule",
+		},
+		Bounds:     map[string]string{"L": "probe tail 0..6 / 0..8 symbolic bytes, 8 request methods", "T": "128 subsets x Uses on/off x 3 base paths x 7 map orders = 5376 configurations; 70 sampled per quick run, 1500 thorough"},
+		Symbolic:   []string{"probe tail bytes"},
+		Enumerated: []string{"controller type", "Uses", "base path", "map order", "method"},
+	},
 }
